@@ -56,6 +56,8 @@ class CharacterSet : public CvCharTable
 public:
     explicit CharacterSet(const unsigned char *t): CvCharTable(t) {}
     static const CvCharTable TCHAR;   // (base-class type: cbmc's C++ front end segfaults on a static member of the class's own type)
+    // the other standard tables (contents dumped from the real objects too); unused by today's HttpHeaderEntry::parse
+    static const CvCharTable WSP, ALPHA, DIGIT, HEXDIG, CTL, VCHAR, SP, HTAB, CR, LF, BIT, DQUOTE, OBSTEXT, QDTEXT, SPECIAL;
 };
 
 // ---- SBuf: recorder of where its bytes came from ----
